@@ -308,10 +308,12 @@ Proof. exact gen_rdtn_in_bounds. Qed.
 Print Assumptions rdtn_pad_in_bounds_generated.
 
 (** [rnd53] of the size model is binary64 round-to-nearest-even as Flocq defines it (for every rational) *)
+From Coq Require Qreals Rdefinitions.
+From Flocq Require Core.
 Theorem rnd53_is_binary64_RNE :
-  forall q : Qc, Qreals.Q2R (this (rnd53 q)) =
+  forall q : Qc, Rdefinitions.Q2R (this (rnd53 q)) =
                  Flocq.Core.Generic_fmt.round Flocq.Core.Zaux.radix2 (Flocq.Core.FLT.FLT_exp (-1074) 53)
-                   (Flocq.Core.Generic_fmt.Znearest (fun x => negb (Z.even x))) (Qreals.Q2R (this q)).
+                   Flocq.Core.Round_NE.ZnearestE (Rdefinitions.Q2R (this q)).
 Proof. exact Float64P.rnd53_correct. Qed.
 Print Assumptions rnd53_is_binary64_RNE.
 
